@@ -196,7 +196,9 @@ class Emb:
         return float(self.s * Fraction(tick) + self.t)
 
     def ticks(self, x, q=1, rel=1e-9, shift=True):
-        """Decode float x to an integer count of 1/q ticks; None if off-lattice (exact: no tolerance)."""
+        """Decode float x to an integer count of 1/q ticks; None if off-lattice (exact: no tolerance) or not finite."""
+        if x != x or x in (float("inf"), float("-inf")):
+            return None
         fx = Fraction(x)
         v = ((fx - (self.t if shift else 0)) / self.s) * q
         if self.exact:
